@@ -321,8 +321,55 @@ def shard_script_sampled(shard, seed, n):
 SOLVER_LETTERS = ["A", "B", "N", "P0", "P1", "P2", "Q0", "Q1", "Q2", "R", "S", "SL", "SN", "I", "V", "U", "O", "IC", "VC"]
 
 
-def check_solver_sequence(run, seq):
-    env = Environment()
+def _portfolio_brute():
+    from pysmt.solvers.portfolio import Portfolio
+    from pysmt.decorators import clear_pending_pop
+    from pysmt.logics import QF_BOOL
+
+    class PortfolioBrute(Portfolio):
+        """pysmt's Portfolio (an IncrementalTrackingSolver without a backend stack of its own) whose _solve decides the
+        tracked assertions by enumeration instead of starting processes."""
+
+        def __init__(self, env):
+            Portfolio.__init__(self, [], environment=env, logic=QF_BOOL)
+            self.asked = None
+
+        @clear_pending_pop
+        def _solve(self, assumptions=None):
+            import itertools as it
+            forms = list(self.assertions) + list(assumptions or [])
+            self.asked = forms
+            syms = sorted({x for f in forms for x in f.get_free_variables()}, key=lambda x: x.symbol_name())
+            m = self.environment.formula_manager
+            for vals in it.product([False, True], repeat=len(syms)):
+                model = dict(zip(syms, [m.Bool(v) for v in vals]))
+                if all(self.environment.simplifier.simplify(self.environment.substituter.substitute(f, model)).is_true() for f in forms):
+                    return True
+            return False
+
+        def backend_assertions(self):
+            return list(self.assertions)
+
+        @property
+        def backend(self):
+            return [None] * (1 + len(self._backtrack_points))
+    return PortfolioBrute
+
+
+PortfolioBrute = _portfolio_brute()
+
+
+_PORTFOLIO_ENV = []
+
+
+def check_solver_sequence(run, seq, portfolio=False):
+    if portfolio:
+        # (one environment per process: constructing a Portfolio asks the factory for its solvers)
+        if not _PORTFOLIO_ENV:
+            _PORTFOLIO_ENV.append(Environment())
+        env = _PORTFOLIO_ENV[0]
+    else:
+        env = Environment()
     m = env.formula_manager
     a, b, c = m.Symbol("a"), m.Symbol("b"), m.Symbol("c")
     fa, fb = a, m.Or(m.Not(a), b)
@@ -338,10 +385,10 @@ def check_solver_sequence(run, seq):
                 return True
         return False
     frames = [[]]
-    case = {"solver": list(seq)}
+    case = {"solver": list(seq), "portfolio": portfolio}
     oneshot_then_more = False
     with env:
-        s = BruteSolver(env)
+        s = PortfolioBrute(env) if portfolio else BruteSolver(env)
         try:
             for i, l in enumerate(seq):
                 live = [f for fr in frames for f in fr]
@@ -400,7 +447,7 @@ def check_solver_sequence(run, seq):
                 elif l == "O":
                     live = [f for fr in frames for f in fr]
                     got = list(s.assertions)
-                    if got != live or s.backend_assertions() != live or len(s.backend) != len(frames):
+                    if got != live or s.backend_assertions() != live or (not portfolio and len(s.backend) != len(frames)):
                         run.fail({"subcheck": "solver:assertions"}, case,
                                  "after step %d of %s: solver.assertions=%s backend=%s (depth %d), live assertions are %s (depth %d)" % (
                                      i, " ".join(seq), got, s.backend_assertions(), len(s.backend) - 1, live, len(frames) - 1))
@@ -416,12 +463,14 @@ def check_solver_sequence(run, seq):
         # final observation
         live = [f for fr in frames for f in fr]
         got = list(s.assertions)
-        if got != live or s.backend_assertions() != live or len(s.backend) != len(frames):
+        if got != live or s.backend_assertions() != live or (not portfolio and len(s.backend) != len(frames)):
             run.fail({"subcheck": "solver:assertions"}, case,
                      "at the end of %s: solver.assertions=%s backend=%s (depth %d), live assertions are %s (depth %d)" % (
                          " ".join(seq), got, s.backend_assertions(), len(s.backend) - 1, live, len(frames) - 1))
     pops_after = any(l[0] == "Q" and l != "Q0" for l in seq) and any(l in "ABN" for l in seq)
-    run.case(key="v:" + ",".join(seq), nontrivial=pops_after or oneshot_then_more)
+    run.case(key=("w:" if portfolio else "v:") + ",".join(seq), nontrivial=pops_after or oneshot_then_more)
+    if portfolio:
+        run.cls("solver:portfolio-class")
     if oneshot_then_more:
         run.cls("solver:oneshot-then-command")
 
@@ -437,6 +486,8 @@ def shard_solver_exhaustive(shard, nshards, maxlen):
             if not legal(seq):
                 continue
             check_solver_sequence(run, seq)
+            if idx % 4 == 0:
+                check_solver_sequence(run, seq, portfolio=True)
     run.cls("solver:exhaustive-sequences", run.evaluations)
     return run
 
@@ -458,7 +509,7 @@ def shard_solver_sampled(shard, seed, n):
             elif l == "R":
                 depth = 0
             seq.append(l)
-        check_solver_sequence(run, tuple(seq))
+        check_solver_sequence(run, tuple(seq), portfolio=rnd.random() < 0.3)
         run.cls("solver:sampled-long")
     drive(body, st.randoms(use_true_random=True), n, derive_seed(seed, "c16v", shard))
     return run
@@ -493,7 +544,7 @@ def replay(rec):
     if "script" in c:
         check_script_sequence(run, ScriptWorld(), tuple(c["script"]), via_text=c.get("via_text"))
     else:
-        check_solver_sequence(run, tuple(c["solver"]))
+        check_solver_sequence(run, tuple(c["solver"]), portfolio=c.get("portfolio", False))
     if run.violations:
         print("VIOLATION property=%s replay=(replayed)" % PID)
         print(run.violations[0]["detail"])
